@@ -51,6 +51,7 @@ def halt_case(rng, ime, pend, op, idle, cb=None, prefix=None):
     mask = rng.choice([1, 2, 4, 8, 16])
     ie = {'pending': mask | rng.randrange(32), 'masked': (~mask) & 31 & rng.randrange(32), 'none': rng.randrange(32)}[pend]
     iff = {'pending': mask, 'masked': mask, 'none': 0}[pend]
+    ie |= rng.choice([0, 0, 0xe0, rng.randrange(8) << 5])     # the unused IE bits 5-7 are stored and must not count
     lines += ['w 65535 %d' % ie, 'w 65295 %d' % iff, 'cpu.ime %d' % ime]
     if prefix is not None:
         lines += ['cpu.cyc 1', 'cpu.get']
@@ -83,7 +84,7 @@ def generate(rng, tier):
                 idle = rng.choice(idles)
                 cases.append(('h%d' % n, halt_case(rng, ime, pend, op, idle)))
                 n += 1
-            for cb in (rng.sample(range(256), 12) if not (ime == 0 and pend == 'pending') else []):
+            for cb in (rng.sample(range(256), 12) if not (ime == 0 and pend == 'pending') else rng.sample(SAFE1, 10)):
                 cases.append(('h%d' % n, halt_case(rng, ime, pend, 0xcb, rng.choice(idles), cb)))
                 n += 1
     # EI / DI / NOP immediately before HALT, every IME x request combination
